@@ -221,16 +221,9 @@ func (c *c04Run) check() {
 		var reloaded *chanstate.OpenChannel
 		if chans, err := st.Db.FetchOpenChannels(st.IdentityPub); err == nil && len(chans) == 1 {
 			reloaded = chans[0]
-			// ThawHeight is part of the persisted channel info of a
-			// real leased channel; the fixture never stored it.
-			reloaded.ThawHeight = p.thaw
 		}
 
-		h0 := uint64(0)
-		if p.kind.CT.HasLeaseExpiration() {
-			h0 = 1
-		}
-		for h := h0; h < revokedBelow; h++ {
+		for h := uint64(0); h < revokedBelow; h++ {
 			vn := c0405NodeName[v]
 			var cheaterTx *wire.MsgTx
 			cs := p.closes[ch][h]
@@ -295,13 +288,6 @@ func (c *c04Run) check() {
 					mode{"reload/notx", reloaded, nil})
 			}
 			for mi, m := range modes {
-				// The fixture's height-0 transactions pay 5 BTC to
-				// each side while the recorded balance has the
-				// fee deducted: amounts taken from the log cannot
-				// match that artificial transaction.
-				if h == 0 && m.tx == nil {
-					continue
-				}
 				var (
 					br  *BreachRetribution
 					res string
@@ -512,9 +498,12 @@ func TestVerifC04(t *testing.T) {
 			caseID++
 			r := rand.New(rand.NewSource(seed*1_000_003 + int64(ki)*1009 + int64(i)))
 			noAmt := r.Intn(4) == 0
-			p, err := c0405NewPair(t, kind, r, noAmt)
+			p, err := c0405NewPair(t, kind, r, noAmt, i%3 == 1)
 			if err != nil {
 				t.Fatalf("create channels %s: %v", kind.Name, err)
+			}
+			if i%3 == 1 {
+				p.smallBalancePrefix()
 			}
 			steps := maxSteps/2 + r.Intn(maxSteps/2+1)
 			n := 0
@@ -525,15 +514,8 @@ func TestVerifC04(t *testing.T) {
 			if drained {
 				p.drain()
 			}
-			a := p.ch[0].channelState
-			fmt.Fprintf(w, "CASE %d prop=c04 type=%s anchors=%d taproot=%d lease=%d tweakless=%d "+
-				"zerofee=%d noamt=%d thaw=%d csvA=%d csvB=%d dustA=%d dustB=%d steps=%d drained=%d dead=%d\n",
-				caseID, kind.Name, c0405B2i(kind.CT.HasAnchors()), c0405B2i(kind.CT.IsTaproot()),
-				c0405B2i(kind.CT.HasLeaseExpiration()), c0405B2i(kind.CT.IsTweakless()),
-				c0405B2i(kind.CT.ZeroHtlcTxFee()), c0405B2i(noAmt), p.thaw,
-				a.LocalChanCfg.CsvDelay, a.RemoteChanCfg.CsvDelay,
-				int64(a.LocalChanCfg.DustLimit), int64(a.RemoteChanCfg.DustLimit),
-				n, c0405B2i(drained), c0405B2i(p.dead))
+			fmt.Fprintf(w, "CASE %d prop=c04 %s steps=%d drained=%d dead=%d\n",
+				caseID, p.header(), n, c0405B2i(drained), c0405B2i(p.dead))
 			run := &c04Run{w: w, p: p, negLeft: 40}
 			run.check()
 			fmt.Fprintf(w, "END\n")
